@@ -486,7 +486,7 @@ func nilOnlyWithFalseOK(fn *ssa.Function, idx int) bool {
 }
 
 // trueGuarded: `at` is only reachable when the bool value v is true.
-func trueGuarded(fn *ssa.Function, v ssa.Value, at ssa.Instruction) bool {
+func trueGuarded(fn *ssa.Function, v ssa.Value, at ssa.Instruction, succ ...*ssa.BasicBlock) bool {
 	for _, b := range fn.Blocks {
 		ifi, ok := b.Instrs[len(b.Instrs)-1].(*ssa.If)
 		if !ok {
@@ -497,11 +497,58 @@ func trueGuarded(fn *ssa.Function, v ssa.Value, at ssa.Instruction) bool {
 		if u, ok := cond.(*ssa.UnOp); ok && u.Op == token.NOT {
 			cond, edge = u.X, 1
 		}
-		if cond == v && edgeDominates(b, edge, at.Block()) {
+		if cond == v && domOrOnEdge(b, edge, at, succ) {
 			return true
 		}
 	}
 	return false
+}
+
+// nilReturnSentinels: every return of fn whose idx-th result is the nil constant
+// also carries a sentinel in another result: a non-nil error (errIdx) or the
+// constant false (okIdx). -1 when no return relies on that kind of sentinel.
+func nilReturnSentinels(fn *ssa.Function, idx int) (errIdx, okIdx int, all bool) {
+	errIdx, okIdx = -1, -1
+	for _, b := range fn.Blocks {
+		ret, ok := b.Instrs[len(b.Instrs)-1].(*ssa.Return)
+		if !ok || idx >= len(ret.Results) {
+			continue
+		}
+		c, ok := ret.Results[idx].(*ssa.Const)
+		if !ok || !c.IsNil() {
+			continue
+		}
+		covered := false
+		for i := len(ret.Results) - 1; i >= 0 && !covered; i-- {
+			if i == idx || !isErrorType(ret.Results[i].Type()) {
+				continue
+			}
+			if lc, isC := ret.Results[i].(*ssa.Const); isC && lc.IsNil() {
+				continue
+			}
+			if errIdx != -1 && errIdx != i {
+				return -1, -1, false
+			}
+			errIdx, covered = i, true
+		}
+		for i := len(ret.Results) - 1; i >= 0 && !covered; i-- {
+			if i == idx || !isBool(ret.Results[i].Type()) {
+				continue
+			}
+			lc, isC := ret.Results[i].(*ssa.Const)
+			if !isC || lc.Value == nil || lc.Value.ExactString() != "false" {
+				continue
+			}
+			if okIdx != -1 && okIdx != i {
+				return -1, -1, false
+			}
+			okIdx, covered = i, true
+		}
+		if !covered {
+			return -1, -1, false
+		}
+	}
+	return errIdx, okIdx, errIdx != -1 || okIdx != -1
 }
 
 func mayReturnNilAt(fn *ssa.Function, idx int) (may bool, pairedWithErr bool) {
@@ -629,12 +676,14 @@ func rulePAN12(p *Program) *RuleResult {
 						r.count("nilable_result_uses", 1)
 						key := short(fn) + "|" + short(sc) + " result used at " + useDescr(use)
 						switch {
-						case nilGuarded(fn, v, du.at) || nilGuarded(fn, du.recv, use):
+						case nilGuarded(fn, v, du.at, du.succ) || nilGuarded(fn, du.recv, use):
 							r.ok(key, "nilable result of "+short(sc)+" is nil-tested before use", p.instrPos(use), "dominating nil test", true)
-						case paired && errv != nil && valueNilGuarded(fn, errv, du.at):
+						case paired && errv != nil && valueNilGuarded(fn, errv, du.at, du.succ):
 							r.ok(key, "nilable result of "+short(sc)+" used only after its error was tested nil", p.instrPos(use), "the callee returns nil only together with a non-nil error", true)
-						case errv != nil && isBool(errv.Type()) && nilOnlyWithFalseOK(sc, idx) && trueGuarded(fn, errv, du.at):
+						case errv != nil && isBool(errv.Type()) && nilOnlyWithFalseOK(sc, idx) && trueGuarded(fn, errv, du.at, du.succ):
 							r.ok(key, "nilable result of "+short(sc)+" used only after its ok result was tested true", p.instrPos(use), "the callee returns nil only together with ok == false", true)
+						case sentinelGuarded(fn, sc, call, idx, du.at, du.succ):
+							r.ok(key, "nilable result of "+short(sc)+" used only after its error was tested nil and its ok result true", p.instrPos(use), "every return of the callee with a nil result carries a non-nil error or ok == false", true)
 						default:
 							r.bad(key, "result of "+short(sc)+" (which can be nil) is dereferenced without a nil test", p.instrPos(use), "nil dereference when the callee returns nil")
 						}
@@ -647,24 +696,55 @@ func rulePAN12(p *Program) *RuleResult {
 	return r
 }
 
+// sentinelGuarded: the use is reachable only when the sentinels that accompany a
+// nil idx-th result of sc (non-nil error, false ok) were tested and found absent.
+func sentinelGuarded(fn, sc *ssa.Function, call *ssa.Call, idx int, at ssa.Instruction, succ *ssa.BasicBlock) bool {
+	errIdx, okIdx, all := nilReturnSentinels(sc, idx)
+	if !all || call.Referrers() == nil {
+		return false
+	}
+	extract := func(i int) ssa.Value {
+		for _, ref := range *call.Referrers() {
+			if ex, ok := ref.(*ssa.Extract); ok && ex.Index == i {
+				return ex
+			}
+		}
+		return nil
+	}
+	if errIdx >= 0 {
+		ev := extract(errIdx)
+		if ev == nil || !valueNilGuarded(fn, ev, at, succ) {
+			return false
+		}
+	}
+	if okIdx >= 0 {
+		ov := extract(okIdx)
+		if ov == nil || !trueGuarded(fn, ov, at, succ) {
+			return false
+		}
+	}
+	return true
+}
+
 // derefUses: instructions that dereference v (method invoke on it, field access through it).
 type derefUse struct {
 	ins  ssa.Instruction
 	recv ssa.Value
 	at   ssa.Instruction // where the value must be known non-nil (the phi's incoming edge for merged values)
+	succ *ssa.BasicBlock // for merged values: the phi's block (the value is needed on the edge at.Block() -> succ)
 }
 
 func derefUses(v ssa.Value) []derefUse {
 	var out []derefUse
 	seen := map[ssa.Value]bool{}
-	var walk func(x ssa.Value, depth int, at ssa.Instruction)
+	var walk func(x ssa.Value, depth int, at ssa.Instruction, succ *ssa.BasicBlock)
 	loc := func(use ssa.Instruction, at ssa.Instruction) ssa.Instruction {
 		if at != nil {
 			return at
 		}
 		return use
 	}
-	walk = func(x ssa.Value, depth int, at ssa.Instruction) {
+	walk = func(x ssa.Value, depth int, at ssa.Instruction, succ *ssa.BasicBlock) {
 		if depth > 3 || seen[x] || x.Referrers() == nil {
 			return
 		}
@@ -673,30 +753,30 @@ func derefUses(v ssa.Value) []derefUse {
 			switch y := ref.(type) {
 			case *ssa.Call:
 				if y.Common().IsInvoke() && y.Common().Value == x {
-					out = append(out, derefUse{y, x, loc(y, at)})
+					out = append(out, derefUse{y, x, loc(y, at), succ})
 				}
 			case *ssa.FieldAddr:
 				if y.X == x {
-					out = append(out, derefUse{y, x, loc(y, at)})
+					out = append(out, derefUse{y, x, loc(y, at), succ})
 				}
 			case *ssa.ChangeInterface:
-				walk(y, depth+1, at)
+				walk(y, depth+1, at, succ)
 			case *ssa.Phi:
 				// the value enters the phi along one edge: it must be non-nil there
 				for i, e := range y.Edges {
 					if e == x {
 						pred := y.Block().Preds[i]
-						walk(y, depth+1, pred.Instrs[len(pred.Instrs)-1])
+						walk(y, depth+1, pred.Instrs[len(pred.Instrs)-1], y.Block())
 					}
 				}
 			case *ssa.UnOp:
 				if y.Op == token.MUL && y.X == x {
-					out = append(out, derefUse{y, x, loc(y, at)})
+					out = append(out, derefUse{y, x, loc(y, at), succ})
 				}
 			}
 		}
 	}
-	walk(v, 0, nil)
+	walk(v, 0, nil, nil)
 	return out
 }
 
